@@ -92,14 +92,15 @@ def check_cfg(ctx, fx, cfg):
     for kind, cf, key in subs:
         if kind != "forcing" or cf is None:
             continue
-        nf += 1
-        b = ctx.body(fx, cf)
-        inst = "forcing:%s@%s" % (cf["def"], cfg)
-        blocking = [(t["callee"], t["l"]) for _, t in b.normal_calls() if (t.get("callee") or "").endswith(BLOCKING)]
-        enq = [t for _, t in b.normal_calls() if chan.is_enqueue(t)]
-        nonwaiting = all((t["callee"]).endswith(("::start_send", "::try_send", "::unbounded_send")) for t in enq) and len(enq) == 1
-        sync = (cf["kind"] == "closure" or (cf.get("_adt") and not cf.get("is_async"))) and not any(True for _bi, _si, _st in agg_sites(b, ak="coroutine"))
-        ctx.require(not blocking and nonwaiting and sync, "R12.1", inst, "the forcing closure must enqueue synchronously without waiting: blocking %s, enqueue %s, sync %s" % (blocking, [t["callee"].split("::")[-1] for t in enq], sync), fn=cf["def"], site=cf["loc"], detail={"enqueue": [t["callee"].split("::")[-1] for t in enq]})
+        # (one view per instantiation of a closure written in a generic helper)
+        for _caps, b in chan.instance_bodies(ctx, fx, cf):
+            nf += 1
+            inst = "forcing:%s@%s" % (cf["def"], cfg)
+            blocking = [(t["callee"], t["l"]) for _, t in b.normal_calls() if (t.get("callee") or "").endswith(BLOCKING)]
+            enq = [t for _, t in b.normal_calls() if chan.is_enqueue(t)]
+            nonwaiting = all((t["callee"]).endswith(("::start_send", "::try_send", "::unbounded_send")) for t in enq) and len(enq) == 1
+            sync = (cf["kind"] == "closure" or (cf.get("_adt") and not cf.get("is_async"))) and not any(True for _bi, _si, _st in agg_sites(b, ak="coroutine"))
+            ctx.require(not blocking and nonwaiting and sync, "R12.1", inst, "the forcing closure must enqueue synchronously without waiting: blocking %s, enqueue %s, sync %s" % (blocking, [t["callee"].split("::")[-1] for t in enq], sync), fn=cf["def"], site=cf["loc"], detail={"enqueue": [t["callee"].split("::")[-1] for t in enq]})
     ctx.floor("R12.1", "forcing closures (%s)" % cfg, nf, 2)
     for e in ("addr::Addr::<A>::stop", "addr::Addr::<A>::restart", "context::Context::<A>::stop", "context::Context::<A>::restart", "addr::weak_addr::WeakAddr::<A>::try_stop"):
         f = fx.fn(e)
